@@ -125,8 +125,8 @@ func main() {
 			"BGV encoder / CKKS encoder are trusted for message <-> plaintext polynomial (C07); decryption itself is the harness's own phase computation",
 		},
 		Scenarios:      scenarios,
-		QuickBudget:    140 * time.Second,
-		ThoroughBudget: 20 * time.Minute,
+		QuickBudget:    150 * time.Second,
+		ThoroughBudget: 25 * time.Minute,
 		Expect:         expect,
 	})
 }
